@@ -9,14 +9,25 @@ THEOREMS = ['MindsVerif.Props.C16.' + n for n in (
     'sepStable_others', 'C16_partial', 'C16_partial_command', 'C16_layout', 'C16_closed_form', 'C16_columns', 'C16_render_blankSep',
     'C16_layout_source', 'C16_blank_spec', 'C16_rawquery', 'C16_fixed', 'C16_live_cfg', 'phi16_mindsdb', 'pin_tokenFuncs',
     'pin_rewriting', 'pin_ignored',
-    'C16_witness_1', 'C16_witness_2', 'C16_witness_3', 'C16_witness_4', 'C16_witness_5', 'C16_full_false')]
+    'C16_review_layout_source_live', 'C16_review_storedSpec_length',
+    'C16_regress_pinned_1', 'C16_regress_pinned_2', 'C16_regress_pinned_3', 'C16_regress_pinned_4', 'C16_regress_pinned_5',
+    'C16_regress_pinned_full_false')]
 ASSUME = [
-    'tokens_to_string, the four raw_query actions and the four value-rewriting token actions are hand-modelled '
-    '(MindsVerif.TokStr); tie = correspondence stream of this run (real tokens of real embedding commands + synthetic token lists)',
-    'the regex scanner itself is not modelled: tokens are abstract records {type,value,src,lineno,index}; that re-lexing the '
-    'blanked text gives the same tokens (sepStable) is checked by the impl-level oracle only, not by a theorem',
-    'that the embedding productions pass exactly the tokens between their parentheses to tokens_to_string: Φ16 (kernel, exported '
-    'productions) + C05 (accepted => derivation tree over the whole token list) + the slice check of this run on the real parser',
+    'hand models (MindsVerif.TokStr): tokens_to_string (body of /repo bd184d7: lineno = line a token starts on, line_num += newlines in '
+    'the value), the four raw_query actions, the token actions under the regenerated configuration Gen.C16Data.actCfg; tie = '
+    'correspondence tokstr (real tokens of the real embedding commands, every token value, the string stored in the AST; synthetic '
+    'arbitrary token lists)',
+    'source-layout model (TokStr.Seg / place / blank / storedSpec / sourceText): tie = correspondence layout (generated (gap, lexeme) '
+    'layouts through the real lexer and the real tokens_to_string: lineno / index / value of every token, stored text, source text)',
+    'multi-word keyword scanner model (MindsVerif.MultiWord): tie = correspondence multiword against the real lexer; Python Unicode '
+    'classes of \\s and \\b are read as ASCII',
+    'the full regex scanner is not modelled: that re-lexing / re-parsing the stored text gives the same tokens / tree is the '
+    'impl-level oracle of this run, not a theorem',
+    'C16_link is about the LR driver model and the exported grammar (C05 parse_good + phi16_mindsdb); that the embedding actions '
+    'store tokens_to_string(p.raw_query) unchanged and that SLY hands each action its children\'s values is tied by the glue part of '
+    'tokstr and the slice check of this run (impl:rawquery-slice)',
+    'translator: Gen.C16Data.actCfg flags are the syntactic test "the action function assigns <token>.value" (cross-checked by the '
+    'token-value part of tokstr)',
 ]
 
 Q_TYPES = {'QUOTE_STRING': 'q', 'DQUOTE_STRING': 'd', 'VARIABLE': 'v', 'SYSTEM_VARIABLE': 's'}
@@ -533,6 +544,71 @@ def multiword_corr(chk, R, rng, n):
                     dict(keywords=len(names), matched=sum(1 for e in expect if e != 'none')))
 
 
+LAY_GAPS = [' '] * 6 + ['  ', '\t', '\n', '\n\n', '\n   ', ' \n', ' /* c */ ', '/*c*/', ' -- c\n', '/* m\nl */', '\r\n', '     ', '', '',
+                        '--\n', ' /* ) ( */ ', "/*'*/", '\t/*c*/\t', '\n-- x\n\n  ']
+LAY_PREFIX = ['', '', '\n', '  ', '\n\n   ', '/* head */ ', '-- head\n', '/* a\nb */\n ']
+
+
+def layout_corr(chk, R, rng, n):
+    """the source-layout model (TokStr.Seg / place / blank / storedSpec / sourceText) against the real lexer and the real
+    tokens_to_string: a layout is a list of (gap, lexeme); the text is their concatenation after an ignored prefix"""
+    pool = KW + IDS + NUMS + STR_PLAIN + STR_REWR + STR_MULTI + VARL + OPS + ['(', ')']
+    lines, exps, metas, skipped = [], [], [], 0
+    tries = 0
+    while len(lines) < n and tries < 4 * n:
+        tries += 1
+        k = rng.randint(1, 12)
+        lex = [rng.choice(pool) if rng.random() < 0.7 else atom(rng, 0.3) for _ in range(k)]
+        gaps = [rng.choice(LAY_GAPS) for _ in range(k)]
+        prefix = rng.choice(LAY_PREFIX)
+        body = ''.join(g + l for g, l in zip(gaps, lex))
+        text = prefix + body
+        try:
+            toks = R.lex(text)
+        except Exception:
+            skipped += 1
+            continue
+        if [text[t.index:t.end] for t in toks] != lex:
+            skipped += 1          # lexemes merged / split / swallowed by a comment: not a layout of these lexemes
+            continue
+        try:
+            stored = R.orig(toks)
+        except Exception as e:
+            stored = 'EXC %s' % type(e).__name__
+        segs = ' '.join('%s:%d:%s:%s' % (Q_TYPES.get(t.type, 'o'), g.count('\n'), enc(g), enc(l)) for t, g, l in zip(toks, gaps, lex))
+        lines.append('lay %d %d %s' % (len(prefix), 1 + prefix.count('\n'), segs))
+        exps.append(dict(place=[(t.lineno, t.index, t.value) for t in toks], stored=stored, source=body))
+        metas.append(dict(text=text))
+        chk.count(('lay', text))
+    outs = common.lean_run('TokStr', lines)
+    bad = []
+    for o, e, m in zip(outs, exps, metas):
+        parts = o.split('|')
+        why = None
+        if len(parts) != 4:
+            why = 'driver: ' + o[:100]
+        else:
+            mp = []
+            for x in parts[0].strip().split(';'):
+                a, b, c = x.split(':')
+                mp.append((int(a), int(b), dec(c)))
+            if mp != e['place']:
+                j = next((i for i, (x, y) in enumerate(zip(mp, e['place'])) if x != y), 0)
+                why = 'place: token %d model (lineno,index,value) %r, lexer %r' % (j, mp[j], e['place'][j])
+            elif dec(parts[3]) != e['source']:
+                why = 'sourceText differs from the text'
+            elif dec(parts[2]) != e['stored']:
+                why = 'tokensToString(place …) %r, tokens_to_string %r' % (dec(parts[2]), e['stored'])
+            elif dec(parts[1]) != e['stored']:
+                why = 'storedSpec %r, tokens_to_string %r' % (dec(parts[1]), e['stored'])
+        if why:
+            bad.append(dict(m, why=why))
+    chk.corr_result('layout', len(lines), len(bad), bad[0] if bad else None,
+                    dict(layouts=len(lines), skipped_not_a_layout=skipped,
+                         multi_line_lexeme=sum(1 for e in exps if any('\n' in v for _, _, v in e['place'])),
+                         line_changes=sum(1 for e in exps if len({l for l, _, _ in e['place']}) > 1)))
+
+
 def corpus_selects(R):
     out = []
     for text, types, lexs in streams.corpus_tokens('mindsdb'):
@@ -618,6 +694,7 @@ def run(chk):
             pads = {'q': rng.choice(PADS), 'q2': rng.choice(PADS)}
             handle(cname, {'q': inner, 'q2': inner2}, pads, rng.choice(PREFIX), mode)
     n_real = len(lines)
+    live_rewriting = side().get('rewriting', [])
     chk.oblige('impl:rawquery-slice', 'impl-check', not slice_bad,
                json.dumps(slice_bad[0], ensure_ascii=False)[:1200] if slice_bad else '')
     # synthetic token lists straight into the real tokens_to_string
@@ -659,6 +736,8 @@ def run(chk):
                     why = 'glue: the command stores %r, tokens_to_string returned %r' % (e['stored'], e['out'])
                 if flags.get('wf') == '1' and flags.get('closed') != '1':
                     thm_bad = thm_bad or 'closed form theorem instance fails on ' + lines[i][:200]
+                if i < n_real and not live_rewriting and flags.get('verbatim') != '1':
+                    thm_bad = thm_bad or 'instance of theorem C16 fails (stored text is not `verbatim`) on ' + lines[i][:200]
                 if i < n_real and flags.get('wf') != '1':
                     thm_bad = thm_bad or 'lexer output violates the position invariant WfBy value: ' + lines[i][:200]
             if why:
@@ -668,6 +747,10 @@ def run(chk):
         chk.oblige('model:theorem-instances', 'theorem-instance', thm_bad is None, thm_bad or '')
     except Exception as e:
         chk.oblige('corr:tokstr', 'correspondence', False, 'driver failed: %s' % e)
+    try:
+        layout_corr(chk, R, rng, 1500 if quick else 20000)
+    except Exception as e:
+        chk.oblige('corr:layout', 'correspondence', False, 'failed: %s' % e)
     try:
         multiword_corr(chk, R, rng, 40 if quick else 400)
     except Exception as e:
@@ -679,7 +762,8 @@ def run(chk):
     chk.samples.append(dict(theorem='C16_link : parse Tables_mindsdb.tables mode bad ids fuel = .accept t log → Occ t pre (.node p lhs (l ++ q :: r)) post → lhs ≠ rq → q.root = rqc → tks.map tid = ids → ∃ tpre tl tmid tr tpost v, tks = tpre ++ tl :: (tmid ++ tr :: tpost) ∧ tid tl = LPAREN ∧ tid tr = RPAREN ∧ tmid.map tid = q.yield ∧ tmid ≠ [] ∧ closeIdx 0 ((tmid ++ tr :: tpost).map tid) = some tmid.length ∧ toRQ (size q) q (tmid ++ tr :: tpost) = some (v, tr :: tpost) ∧ v.value = tmid ∧ queryStr v = tokensToString tmid ∧ (LexInv actCfg tmid → queryStr v = verbatim tmid)'))
     chk.samples.append(dict(theorem='C16_partial : ∀ c toks, LexInv c toks → Unrewritten c toks → tokensToString toks = verbatim toks'))
     chk.samples.append(dict(theorem='C16_layout_source : ∀ c idx line s r, (∀ x ∈ r, x.dl ≠ 0 → x.gap ≠ []) → (∀ x ∈ s :: r, action c x.type x.src = x.src) → tokensToString (place c idx line (s :: r)) = storedSpec (s :: r)'))
-    chk.samples.append(dict(theorem='C16_full_false : ¬ C16_full pinnedCfg;  C16_fixed : C16_full fixedCfg  (C16_full c := ∀ toks, LexInv c toks → tokensToString toks = verbatim toks)'))
+    chk.samples.append(dict(theorem='C16 : C16_full Gen.C16Data.actCfg;  C16_fixed : C16_full fixedCfg  (C16_full c := ∀ toks, LexInv c toks → tokensToString toks = verbatim toks);  regression: C16_regress_pinned_full_false : ¬ C16_full pinnedCfg'))
+    chk.samples.append(dict(theorem='C16_review_layout_source_live : ∀ idx line s r, (∀ x ∈ r, x.dl ≠ 0 → x.gap ≠ []) → tokensToString (place Gen.C16Data.actCfg idx line (s :: r)) = storedSpec (s :: r)'))
     return chk.finish(assumptions=ASSUME, extra=dict(impl_probe=dict(
         oracle='canon(lex(stored)) == canon(lex(inner)) (token sources, multi-word keywords split) and, when the inner text '
                'parses on its own, to_tree equality of parse_sql(stored) and parse_sql(inner); slice check of the tokens '
